@@ -45,6 +45,18 @@ void checkSaves(NifFile& n, const std::string& source, const std::string& stage)
 	}
 }
 
+// header strings set through the API: creator and export info are stored as short strings (one length byte that counts the
+// terminating NUL); lengths around the representable maximum and around the 254-character export chunks
+std::string headerInfoEdit(NifFile& n, Rng& rng) {
+	static const size_t LEN[] = {0, 1, 40, 253, 254, 255, 256, 257, 300, 507, 508, 509, 510, 511, 512, 600, 761, 762, 763, 900};
+	auto text = [&](size_t len) { std::string t; for (size_t i = 0; i < len; i++) t += (char)('a' + (i * 7 + len) % 26); return t; };
+	std::string log;
+	auto& hdr = n.GetHeader();
+	if (rng.coin()) { size_t l = LEN[rng.below(20)]; hdr.SetExportInfo(text(l)); log += fmt("SetExportInfo(%zu chars);", l); }
+	if (rng.coin(3)) { size_t l = LEN[rng.below(20)]; hdr.SetCreatorInfo(text(l)); log += fmt("SetCreatorInfo(%zu chars);", l); }
+	return log;
+}
+
 void run(size_t idx) {
 	Layout l = layout();
 	Plan p = plan();
@@ -62,7 +74,7 @@ void run(size_t idx) {
 		Rng rng(seed);
 		for (int r = 0; r < p.editRounds; r++) {
 			R_phase("edit");
-			std::string log = applyRandomEdits(n, rng, 3);
+			std::string log = applyRandomEdits(n, rng, 3) + headerInfoEdit(n, rng);
 			R_caseDesc(src + " edits: " + log);
 			checkSaves(n, src, "edited" + std::to_string(r));
 		}
@@ -110,7 +122,7 @@ void run(size_t idx) {
 		Rng rng(seed);
 		for (int r = 0; r < p.editRounds; r++) {
 			R_phase("edit");
-			std::string log = applyRandomEdits(*m.nif, rng, 4);
+			std::string log = applyRandomEdits(*m.nif, rng, 4) + headerInfoEdit(*m.nif, rng);
 			R_caseDesc(src + " edits: " + log);
 			checkSaves(*m.nif, src, "edited" + std::to_string(r));
 		}
